@@ -4,6 +4,7 @@ import (
 	"fmt"
 	"go/token"
 	"go/types"
+	"golang.org/x/tools/go/callgraph"
 	"strings"
 
 	"golang.org/x/tools/go/ssa"
@@ -163,7 +164,16 @@ func (w *World) paramCtxEnv(fn *ssa.Function) Env {
 	// which the table holds this function
 	if n := w.CG.Nodes[fn]; n != nil {
 		seenSite := map[ssa.CallInstruction]bool{}
+		in := append([]*callgraph.Edge(nil), n.In...)
+		// a method expression kept as a value (`{typedListTag, (*Decoder).readTypedList}`) is
+		// called through a synthetic thunk with the method's own operands: the sites calling
+		// the thunk through a function value are call sites of fn
 		for _, e := range n.In {
+			if e.Caller.Func != nil && e.Caller.Func != fn && w.unthunk(e.Caller.Func) == fn {
+				in = append(in, e.Caller.In...)
+			}
+		}
+		for _, e := range in {
 			c, ok := e.Site.(*ssa.Call)
 			if !ok || c.Call.StaticCallee() != nil || c.Call.IsInvoke() || seenSite[c] || e.Caller.Func == nil || !w.inPkg(e.Caller.Func) {
 				continue
@@ -186,6 +196,22 @@ func (w *World) paramCtxEnv(fn *ssa.Function) Env {
 				}
 				if idxVal != nil && c.Call.Args[i] == idxVal {
 					s = s.Intersect(at)
+				} else if idxVal == nil && c.Call.Args[i] == w.tagSymbolOf(e.Caller.Func) {
+					// the function value comes out of a table the caller walks itself (first-match
+					// loop over `{accepts, read}` rows): the caller's dispatch map, explored tag by
+					// tag with the function values followed, says for which tags this call hands
+					// the tag to fn
+					if d := w.dispatchOf(e.Caller.Func, nil); d != nil {
+						var tags ISet
+						for t := 0; t < 256; t++ {
+							if d.callee[t] == fnName(fn) && d.handed[t] {
+								tags = append(tags, IV{bi(int64(t)), bi(int64(t))})
+							}
+						}
+						if tags = tags.norm(); !tags.Empty() {
+							s = s.Intersect(tags)
+						}
+					}
 				}
 				sets[i] = sets[i].Union(s)
 			}
@@ -357,7 +383,25 @@ func (w *World) ruleLookAhead(r *Report, rule string) {
 // ruleHeaderSiblings: after 'M' (both readers) and after a typed-list tag the
 // first read is the type reader.
 func (w *World) ruleHeaderSiblings(r *Report, rule string) {
+	// the readers of the grammar; a Decoder method that is none of them but leads to
+	// one (`mType, err := d.registeredMapType()`: the type read and the look-up of
+	// the registered Go type moved out together) is looked into: the first read is
+	// the first read of its own entry block
+	known := map[*ssa.Function]bool{}
+	for fn := range w.readerBoundaries() {
+		known[fn] = true
+	}
+	for _, n := range []string{"(*Decoder).readType", "(*Decoder).ReadData", "(*Decoder).readTag"} {
+		if fn := w.fn(n); fn != nil {
+			known[fn] = true
+		}
+	}
+	leadsToReader := w.canReach(known)
+	var firstReadD func(fn *ssa.Function, blocks []*ssa.BasicBlock, depth int) (string, string)
 	firstRead := func(fn *ssa.Function, blocks []*ssa.BasicBlock) (string, string) {
+		return firstReadD(fn, blocks, 0)
+	}
+	firstReadD = func(fn *ssa.Function, blocks []*ssa.BasicBlock, depth int) (string, string) {
 		for _, b := range blocks {
 			for _, in := range b.Instrs {
 				c, ok := in.(*ssa.Call)
@@ -369,6 +413,11 @@ func (w *World) ruleHeaderSiblings(r *Report, rule string) {
 					continue
 				}
 				if sc.Signature.Recv() != nil && namedIs(sc.Signature.Recv().Type(), hessianPath, "Decoder") {
+					if !known[sc] && leadsToReader[sc] && sc.Blocks != nil && depth < 3 && sc != fn {
+						if got, pos := firstReadD(sc, sc.Blocks[:1], depth+1); got != "" {
+							return got, pos
+						}
+					}
 					return fnName(sc), w.instrPos(c)
 				}
 			}
